@@ -308,6 +308,22 @@ def _run_rest(ctx: Ctx, env, m):
                 ctx.check(isinstance(pv, str) and pv != reg_default, "R4.function-registry-isolated", f"register_function|{ast.unparse(n.args[0]) if n.args else '?'}",
                           f"`{ast.unparse(n)[:80]}` registers into package {pv!r}: SQLAlchemy's default registry is shared with the host application, whose "
                           "sqlalchemy.func.<name> now resolves to the back end's class", mod.loc(n), "host calls sqlalchemy.func.ceiling(x) after importing odata_query.sqlalchemy")
+    # hooks registered on SQLAlchemy's own constructs (compile hooks, event listeners) act on the host's statements as well
+    for mname, mod in repo.modules.items():
+        if not mname.startswith("odata_query.sqlalchemy"):
+            continue
+        for n in ast.walk(mod.tree):
+            if not isinstance(n, ast.Call) or not n.args:
+                continue
+            fq = str(repo.resolve_expr(mod, n.func) or "") if isinstance(n.func, (ast.Name, ast.Attribute)) else ""
+            if fq in ("sqlalchemy.ext.compiler.compiles", "sqlalchemy.event.listen", "sqlalchemy.event.listens_for", "sqlalchemy.event.api.listen",
+                      "sqlalchemy.event.api.listens_for"):
+                tq = str(repo.resolve_expr(mod, n.args[0]) or "") if isinstance(n.args[0], (ast.Name, ast.Attribute)) else ""
+                own = tq.startswith("odata_query.") and tq in repo.classes
+                ctx.check(own, "R4.no-global-mutation", f"{mname}|{fq.rsplit('.', 1)[-1]}({ast.unparse(n.args[0])[:40]})",
+                          f"`{ast.unparse(n)[:90]}` hooks into `{tq or ast.unparse(n.args[0])}`, which is not a class of this package: the hook also applies to "
+                          "statements the host application builds with that construct", mod.loc(n),
+                          "host compiles sqlalchemy.func.concat(a, b) after importing odata_query.sqlalchemy")
     if not any(o.rule == "R4.no-global-mutation" and not o.ok for o in ctx.obligations):
         ctx.ok("R4.no-global-mutation", "odata_query.sqlalchemy", "no module-level write into sqlalchemy's namespace")
     ctx.assume("row-level equality with the base query, SQLAlchemy's de-duplication of repeated joins and legacy Query internals are not decided")
